@@ -3,13 +3,14 @@
    Coq datatypes so 2^64-sized values never pass through OCaml's 63-bit int. No Extract Constant. *)
 Require Extraction.
 Require Import ExtrOcamlBasic.
-From Coq Require Import NArith ZArith.
-From PM Require Import Model.Varint Model.Directory Model.Iterate Model.TileId Gen.Generated Model.Header Model.FindTile Model.DirBuild Model.Resolver Model.Archive Model.Verify Model.Cluster Model.PathParse Model.PathSafe Model.Bucket.
+From Coq Require Import NArith ZArith Ascii String.
+From PM Require Import Model.Varint Model.Directory Model.Iterate Model.TileId Gen.Generated Model.Header Model.FindTile Model.DirBuild Model.Resolver Model.Archive Model.Verify Model.Cluster Model.PathParse Model.PathSafe Model.Bucket Model.Http.
 Extraction "model.ml"
   N.add N.mul N.sub N.div_eucl N.of_nat N.to_nat N.compare N.eqb Z.add Z.mul Z.div_eucl Z.of_N Z.to_N Z.opp
   put_uvarint read_uvarint serialize_entries deserialize_entries deserialize_res
   iterate_table
   zxy_to_id id_to_zxy parent_id
+  serve_http Ascii.N_of_ascii
   read_mock read_file read_http origin adapter_class
   route_of file_for_key
   cluster verify content_of
